@@ -113,6 +113,15 @@ func genLight(r *Rand, mode string) *Project {
 		}
 		pos := lo + r.Intn(len(ll)-lo+1)
 		ins := []string{includeLineText(param, r)}
+		if mode != "hostile" && r.Chance(1, 10) {
+			// a block comment that spans lines between the keyword and the file name: the directive
+			// (and an entry of an include trace) is on the line of the keyword (seeded change C07-t)
+			// (one entry, so that no later insertion lands inside it; \x1e becomes the file's line break)
+			ins = []string{"INCLUDE ### the part\x1e  about this\x1e### " + param}
+			if r.Chance(1, 2) {
+				ins = []string{"INCLUDE ### " + []string{"one", "a b c"}[r.Intn(2)] + "\x1e###   " + param + " # x"}
+			}
+		}
 		if r.Chance(1, 12) {
 			// a directive that is wrong where it stands, directly in front of the INCLUDE: it is still
 			// pending when the included file is opened, and fails when that file's first keyword arrives
@@ -200,7 +209,7 @@ func genLight(r *Rand, mode string) *Project {
 			nl = "\r" // CR-only files are legal too (classic Mac line endings)
 			p.Features = append(p.Features, "cr-only-file")
 		}
-		text := strings.Join(g.files[n], nl)
+		text := strings.ReplaceAll(strings.Join(g.files[n], nl), "\x1e", nl)
 		if len(g.files[n]) > 0 && !r.Chance(1, 8) { // sometimes no final newline
 			text += nl
 		}
